@@ -83,6 +83,7 @@ func init() {
 		run: func(p *Program, rep *Report, tier string) {
 			g(rep, "PQTX", func() { rulePQTX(p, rep) })
 			g(rep, "KEEPWRITEPAGE", func() { ruleKEEPWRITEPAGE(p, rep) })
+			g(rep, "POSITION-COHERENT", func() { rulePOSITIONCOHERENT(p, rep) })
 			g(rep, "TX-PAIRING", func() { ruleTXPAIRING(p, rep) })
 			g(rep, "ERRDISC", func() { ruleERRDISC(p, rep, "pq", false) })
 			g(rep, "ORDER", func() { ruleORDER(p, rep, orderSet("ORDER", "SLOT")) })
